@@ -222,9 +222,12 @@ def check_writer_roundtrip(ctx, index):
     limit_case = None
     if index % 10 == 3:
         # at the limits of the workbook format: what cannot be stored must be refused by the writer, not cut off
-        limit_case = rng.choice(["cell-32767", "cell-32768", "row-16384", "row-16385"])
+        limit_case = rng.choice(["cell-32767", "cell-32768", "row-16384", "row-16385", "surrogate"])
         position = rng.randrange(len(table))
-        if limit_case.startswith("cell"):
+        if limit_case == "surrogate":
+            # a string the workbook (UTF-8 encoded XML) cannot hold
+            table[position][rng.randrange(len(table[position]))] = "a\udcffb"
+        elif limit_case.startswith("cell"):
             table[position][rng.randrange(len(table[position]))] = "x" * int(limit_case[5:])
         else:
             table[position] = ["c"] * int(limit_case[4:])
@@ -247,7 +250,7 @@ def check_writer_roundtrip(ctx, index):
                     accepted.append(row)
                 except errors.DataError:
                     # refused: nothing of this row may show up, and the rows after it are written as usual
-                    if limit_case not in ("cell-32768", "row-16385"):
+                    if limit_case not in ("cell-32768", "row-16385", "surrogate"):
                         raise
                     ctx.count("writer.refused-beyond-format-limits")
         finally:
